@@ -101,6 +101,9 @@ var Projections = map[string]*Projection{
 	// oversized / undersized messages during startup and authentication: the preamble is the subject
 	"C10pre": {Recv: map[string]fieldSet{"*": kinds, "E": fs("code", "fatal")},
 		Cb: map[string]fieldSet{"*": fs("q", "def")}},
+	// transcript identity under segmentation: kinds, row/field counts, tags, SQLSTATE, callbacks with results
+	"C03": {SkipPreamble: true, Recv: map[string]fieldSet{"*": kinds, "C": fs("tag"), "D": fs("n", "rawdig"), "T": fs("n", "names"), "E": fs("code", "msg"), "G": fs("fmt", "n")},
+		Cb: map[string]fieldSet{"*": fs("q", "def", "si", "ret", "written", "dig", "params")}},
 	"C20": {SkipPreamble: true, Recv: map[string]fieldSet{"*": kinds, "t": fs("n", "wf")},
 		Cb: map[string]fieldSet{"*": fs("q", "def")}},
 	"C09": {SkipPreamble: true, Recv: map[string]fieldSet{"*": kinds, "T": fs("n", "oids", "fmts"), "D": fs("n", "cells")},
